@@ -46,11 +46,24 @@ func (s *Session) ExecQuery(q string) error {
 		fmt.Printf("created database %s\n\r", stmt.Name)
 		return nil
 	case sql.UseStatement:
+		if s.RelationService != nil && strings.EqualFold(stmt.DBName, s.CurDB) {
+			// already selected: opening it a second time would read a stale
+			// copy of the file header next to the live one
+			fmt.Printf("selected database %s\n\r", stmt.DBName)
+			return nil
+		}
 		// only switch once the database has been opened: a USE that fails
 		// leaves the session on the database it was on
 		rs, err := storage.OpenRelation(stmt.DBName, true)
 		if err != nil {
 			return err
+		}
+		if s.RelationService != nil {
+			// flush the previous database and stop its flush timer
+			if err := s.RelationService.Close(); err != nil {
+				rs.Close()
+				return err
+			}
 		}
 		s.CurDB = stmt.DBName
 		s.RelationService = rs
